@@ -46,3 +46,32 @@ Definition into_mismatches := mismatches into_case_ok.
 Definition into_case_model (c : into_case) := let '(t, x, _) := c in into_data t x.
 Definition into_unmodelled (l : list into_case) : nat :=
   List.length (filter (fun c => let '(t, x, _) := c in match into_data t x with Escape EOther => true | _ => false end) l).
+
+(* convert(x, T) = from_data(into_data(x), T): serialise by the value's own class, parse as T *)
+Definition into_top (t : ty) (x : pyval) : outcome pyval :=
+  match x with
+  | VInst c _ _ =>
+      match t with
+      | TClass h _ => if String.eqb (c_name h) c then into_data t x else unmodelled
+      | _ => unmodelled
+      end
+  | _ => into_auto x
+  end.
+
+Definition convobj_case := (ty * pyval * conv_res)%type.
+Definition convres_eqb (m o : conv_res) : bool :=
+  match m, o with
+  | COk a, COk b => val_eqb a b
+  | CErr a, CErr b => enode_eqb a b
+  | CThrow a, CThrow b => exn_eqb a b
+  | _, _ => false
+  end.
+Definition convobj_case_ok (c : convobj_case) : bool :=
+  let '(t, x, obs) := c in
+  match into_top t x with
+  | Escape EOther => true
+  | Ok d => convres_eqb (convert t d) obs
+  | Escape e => match obs with CThrow e' => exn_eqb e e' | _ => false end
+  | Reject => false
+  end.
+Definition convobj_mismatches := mismatches convobj_case_ok.
